@@ -355,6 +355,8 @@ class FakeSnowflakeCursor:
             schema = table.db or self._conn.schema
             assert catalog and schema
             self._duck_conn.execute(info_schema.insert_table_comment_sql(catalog, schema, table.name, comment))
+            # return the statement's status rather than the result of the insert above
+            result_sql = result_sql or SQL_SUCCESS
 
         if (text_lengths := cast(list[tuple[str, int]], transformed.args.get("text_lengths"))) and (
             table := transformed.find(exp.Table)
